@@ -18,8 +18,8 @@ CONSTANT Verbose
 
 Traces == ndJsonDeserialize(IOEnv.TRACE_FILE)
 
-VARIABLES tid, l, cache
-tvars == <<tid, l, cache>>
+VARIABLES tid, l, cache, ref
+tvars == <<tid, l, cache, ref>>
 
 Tr == Traces[tid]
 
@@ -66,15 +66,23 @@ CachedAfter(tr, st, prevChunk) ==
   ELSE LET L == TotalLen(tr.segs)  i == IF st.i < 0 THEN L + st.i ELSE st.i IN
        IF i < 0 \/ i >= L THEN prevChunk ELSE CHOOSE c \in Overlapping(tr.segs, i, i + 1) : TRUE
 
-TInit == tid \in DOMAIN Traces /\ l = 1 /\ cache = <<>>
+\* REFINEMENT (diagnostic, never a verdict): the chunk selection the implementation logged through the NPTDMS_VERIF
+\* hook (per segment: chunk_offset, num_chunks) against the algorithm model's fetch set
+ImplFetch(st) == UNION {{<<st.impl[i][1], st.impl[i][2] + q>> : q \in 0..(st.impl[i][3] - 1)} : i \in DOMAIN st.impl}
+StepRefines(tr, st) ==
+  st.kind # "window" \/ (st.hooked /\ ImplFetch(st) = AlgWindow(tr.segs, tr.il, st.off, st.len).fetch)
+
+TInit == tid \in DOMAIN Traces /\ l = 1 /\ cache = <<>> /\ ref = TRUE
 TStep == /\ l <= Len(Tr.steps)
          /\ StepOK(Tr, Tr.steps[l], cache)
          /\ cache' = CachedAfter(Tr, Tr.steps[l], cache)          \* the channel's one-chunk cache
+         /\ ref' = (ref /\ StepRefines(Tr, Tr.steps[l]))
          /\ l' = l + 1 /\ UNCHANGED tid
 TSpec == TInit /\ [][TStep]_tvars
 
 \* every trace consumed to its end prints ACCEPT; ids not printed are rejected (the harness re-runs those
 \* with Verbose to learn the first step that does not match)
 Accepted == (l = Len(Tr.steps) + 1) => PrintT(<<"ACCEPT", Tr.id>>)
+Refined == (l = Len(Tr.steps) + 1 /\ ref) => PrintT(<<"REFINED", Tr.id>>)
 Progress == Verbose => PrintT(<<"AT", Tr.id, l>>)
 =============================================================================
